@@ -318,3 +318,72 @@ def check_index_truth(ctx, repo: Repo, pid: str, module_names: List[str], report
     if not bad:
         ctx.ok("INDEXTRUTH", f"{pid}.indextruth", f"no emptiness test of an index array ({seen} np.where/nonzero/flatnonzero index arrays in scope) goes "
                "through the index VALUES (.any()); positive control matched", ", ".join(module_names)[:160])
+
+
+# ---------------------------------------------------------------------------------------------------------------------------
+# ARCDOM: the argument of arccos / arcsin must be brought back into [-1, 1] after floating-point products
+
+AD_CONTROL = '''
+def control(u, v):
+    a = np.arccos(np.clip(np.dot(u, v.T), -1.0, 1.0))
+    b = np.arccos(np.dot(u, v.T))
+    c = np.arccos(np.round(np.dot(u, v) / np.linalg.norm(u) / np.linalg.norm(v), 5))
+    return a, b, c
+'''
+
+_AD_GUARDS = ("clip", "round", "around", "minimum", "maximum", "fmin", "fmax", "nan_to_num")
+
+
+def _arc_domain(trees):
+    """-> (number of arccos/arcsin calls, [(where, relpath, text)] calls whose argument is a floating-point product / quotient that is
+    not clipped or rounded back into the domain)"""
+    seen, bad = 0, []
+    for rel, tree in trees:
+        for fn in [n for n in ast.walk(tree) if isinstance(n, (ast.FunctionDef, ast.AsyncFunctionDef))]:
+            defs = {}
+            for n in ast.walk(fn):
+                if isinstance(n, ast.Assign) and len(n.targets) == 1 and isinstance(n.targets[0], ast.Name):
+                    defs.setdefault(n.targets[0].id, []).append(n.value)
+            for n in ast.walk(fn):
+                if not (isinstance(n, ast.Call) and ast.unparse(n.func) in ("np.arccos", "numpy.arccos", "np.arcsin", "numpy.arcsin",
+                                                                            "math.acos", "math.asin") and len(n.args) == 1):
+                    continue
+                seen += 1
+                # the argument with single-definition local names expanded (two levels)
+                exprs = [n.args[0]]
+                for _ in range(2):
+                    nxt = []
+                    for e in exprs:
+                        nxt.append(e)
+                        for nm in ast.walk(e):
+                            if isinstance(nm, ast.Name) and len(defs.get(nm.id, [])) == 1:
+                                nxt.append(defs[nm.id][0])
+                    exprs = nxt
+                guarded = any(isinstance(c, ast.Call) and ast.unparse(c.func).split(".")[-1] in _AD_GUARDS for e in exprs for c in ast.walk(e))
+                product = any((isinstance(c, ast.Call) and ast.unparse(c.func).split(".")[-1] in ("dot", "inner", "einsum", "vdot", "matmul", "tensordot"))
+                              or (isinstance(c, ast.BinOp) and isinstance(c.op, (ast.MatMult, ast.Div))) for e in exprs for c in ast.walk(e))
+                if product and not guarded:
+                    bad.append((f"{rel}:{fn.name}", rel, ast.unparse(n)))
+    return seen, bad
+
+
+def check_arc_domain(ctx, repo: Repo, pid: str, module_names: List[str], report_modules=None):
+    """ARCDOM: cos(angle) computed as a dot product / quotient of floating-point vectors overshoots 1 by an ulp for (anti)parallel
+    vectors; arccos then returns NaN (a point with itself, antipodal points).  Every such argument has to be clipped or rounded."""
+    s_, b_ = _arc_domain([("<control>", ast.parse(AD_CONTROL))])
+    if s_ != 3 or [x[2] for x in b_] != ["np.arccos(np.dot(u, v.T))"]:
+        ctx.inconclusive("ARCDOM", f"{pid}.arcdomain.control", "positive control of the arccos-domain rule did not match", "<control>")
+        return
+    trees = [(repo.module(mn).relpath, repo.module(mn).tree) for mn in module_names]
+    seen, bad = _arc_domain(trees)
+    rep = {repo.module(m).relpath for m in (report_modules or module_names) if m in repo.modules}
+    bad = [b for b in bad if b[1] in rep]
+    ctx.instance("ARCDOM", seen + 1)
+    for where, rel, text in bad:
+        ctx.violate("ARCDOM", f"{pid}.arcdomain", "the cosine handed to arccos/arcsin is a floating-point product that is neither clipped nor rounded "
+                    "into [-1, 1]: for parallel / antiparallel unit vectors it can be 1.0000000000000002 and the angle becomes NaN (NaN "
+                    "entries on the diagonal / for antipodal pairs poison every matrix built from it)", where, text[:160],
+                    witness="u . u = 1 + 2.2e-16 for a normalised u  ->  arccos = NaN")
+    if not bad:
+        ctx.ok("ARCDOM", f"{pid}.arcdomain", f"every arccos/arcsin of a product or quotient ({seen} calls in scope) is clipped or rounded into "
+               "the domain first (positive control matched)", ", ".join(module_names)[:160])
